@@ -923,6 +923,7 @@ func checkFetcherMapping(c *core.Ctx) {
 		}
 	}
 	c.Floor("tmpl.map", 30)
+	checkLoopPointerAlias(c, c.Prog.ModuleFuncs("snippet"))
 	checkFetcherFilters(c)
 	checkStaleSliceCopies(c)
 }
@@ -1162,4 +1163,60 @@ func sliceLitStrings(v ssa.Value) []string {
 		}
 	}
 	return out
+}
+
+// checkLoopPointerAlias (tmpl.ptralias): the resource readers build one record per entry in a loop; optional values
+// (an ACL entry's mask) are stored as pointers. The address of a variable that lives outside the loop, stored into a
+// record built inside it, is the same pointer for every entry: all entries then show the value of the last one. Every
+// address stored inside a loop into a field / element must be that of a variable allocated inside that loop.
+func checkLoopPointerAlias(c *core.Ctx, funcs []*ssa.Function) {
+	n := 0
+	for _, fn := range funcs {
+		loops := naturalLoops(fn)
+		if len(loops) == 0 {
+			continue
+		}
+		k := 0
+		for _, b := range fn.Blocks {
+			for _, in := range b.Instrs {
+				st, ok := in.(*ssa.Store)
+				if !ok {
+					continue
+				}
+				al, ok := st.Val.(*ssa.Alloc)
+				if !ok || !al.Heap {
+					continue
+				}
+				switch st.Addr.(type) {
+				case *ssa.FieldAddr, *ssa.IndexAddr:
+				default:
+					continue
+				}
+				// the store is in a loop the allocation is not in
+				var outer *loopInfo
+				for i := range loops {
+					l := &loops[i]
+					if (l.body[b] || l.header == b) && !(l.body[al.Block()] || l.header == al.Block()) {
+						outer = l
+					}
+				}
+				// only scalars / strings / small values taken by address matter (a record built outside and linked from
+				// inside the loop would be a design, not a slip)
+				if _, isBasic := al.Type().(*types.Pointer).Elem().Underlying().(*types.Basic); !isBasic {
+					continue
+				}
+				n++
+				k++
+				key := fmt.Sprintf("%s|&%s#%d", core.FnName(fn), al.Comment, k)
+				if outer != nil {
+					c.Report("tmpl.ptralias", key, st.Pos(), fmt.Sprintf("%s stores the address of %s, a variable declared outside the loop, into a record built inside the loop: every record of the loop points at the same variable, so all of them show the value of the last iteration (all ACL entries get the last entry's mask)", core.FnName(fn), al.Comment))
+				} else {
+					c.Discharge("tmpl.ptralias", key, st.Pos(), "the variable is allocated in the same iteration")
+				}
+			}
+		}
+	}
+	if n == 0 {
+		c.Discharge("tmpl.ptralias", "none", token.NoPos, "no address of a scalar variable is stored into a record")
+	}
 }
